@@ -1191,3 +1191,84 @@ package collection
 //@     invariant distinct(ks) ==> (forall p :: 0 <= p && p < len(view(result)) ==> kinw(ks, akey(view(result)[p])) < pos(iterator))
 //@     invariant distinct(ks) ==> (forall p, q :: 0 <= p && p < q && q < len(view(result)) ==> kinw(ks, akey(view(result)[p])) < kinw(ks, akey(view(result)[q])))
 //@     decreases len(ks) - pos(iterator)
+
+// ---------------------------------------------------------------- Sortable delegations (C09, C01, C03)
+
+//@ define sameelems(s, t) := len(s) == len(t) && (forall x U :: cnt(s, 0, len(s), x) == cnt(t, 0, len(t), x))
+
+//@ iface Sortable.SortValues
+//@   nopanic
+//@   modifies view(this)
+//@   ensures[C09] sameelems(view(this), old(view(this)))
+//@ iface Sortable.SortValuesWithRanker
+//@   nopanic
+//@   modifies view(this)
+//@   ensures[C09] sameelems(view(this), old(view(this)))
+//@ iface Sortable.ReverseValues
+//@   nopanic
+//@   let n := len(view(this))
+//@   modifies view(this)
+//@   ensures[C09] len(view(this)) == n && (forall i :: 0 <= i && i < n ==> view(this)[i] == old(view(this))[n - 1 - i])
+//@ iface Sortable.ShuffleValues
+//@   nopanic
+//@   modifies view(this)
+//@   ensures[C09] sameelems(view(this), old(view(this)))
+
+//@ func (array_).SortValues
+//@   props C09 C01
+//@   implements Sortable.SortValues
+//@ func (array_).SortValuesWithRanker
+//@   props C09 C01
+//@   implements Sortable.SortValuesWithRanker
+//@ func (array_).ReverseValues
+//@   props C09 C01
+//@   implements Sortable.ReverseValues
+//@ func (array_).ShuffleValues
+//@   props C09 C01
+//@   implements Sortable.ShuffleValues
+//@ func (*list_).SortValues
+//@   props C09 C01
+//@   implements Sortable.SortValues
+//@ func (*list_).SortValuesWithRanker
+//@   props C09 C01
+//@   implements Sortable.SortValuesWithRanker
+//@ func (*list_).ReverseValues
+//@   props C09 C01
+//@   implements Sortable.ReverseValues
+//@ func (*list_).ShuffleValues
+//@   props C09 C01
+//@   implements Sortable.ShuffleValues
+
+// A sequence with the same multiset of elements is a permutation: the witnessing bijection exists.
+// (mathematical fact relating the two formulations of "permutation"; assumed, not mechanised)
+//@ axiom perm_bijection: forall s Seq, t Seq :: { permof(s, t) } sameelems(s, t) ==> permof(s, t)
+//@ lemma[C03] kobj_perm: forall s Seq, t Seq, k U :: { permof(s, t), kwit(s, k) } permof(s, t) && ukeys(t) && kmem(t, k) ==> kmem(s, k) && s[kwit(s, k)] == t[kwit(t, k)]
+//@ lemma[C03] nonnil_perm: forall s Seq, t Seq :: { permof(s, t) } permof(s, t) && nonnil(t) ==> nonnil(s)
+
+//@ define samemapping(s, t) := (wellkeyed(t) ==> wellkeyed(s)) && (forall k U :: kmem(s, k) <==> kmem(t, k)) && (wellkeyed(t) ==> (forall k U :: kmem(t, k) ==> s[kwit(s, k)] == t[kwit(t, k)]))
+
+//@ func (*catalog_).SortValues
+//@   props C03 C09
+//@   implements Sortable.SortValues
+//@   uses kmem_perm, ukeys_perm, kobj_perm, nonnil_perm
+//@   hint call1: permof(view(this), old(view(this)))
+//@   ensures[C03] permof(view(this), old(view(this))) && samemapping(view(this), old(view(this))) && unchanged(aval)
+//@ func (*catalog_).SortValuesWithRanker
+//@   props C03 C09
+//@   implements Sortable.SortValuesWithRanker
+//@   uses kmem_perm, ukeys_perm, kobj_perm, nonnil_perm
+//@   hint call1: permof(view(this), old(view(this)))
+//@   ensures[C03] permof(view(this), old(view(this))) && samemapping(view(this), old(view(this))) && unchanged(aval)
+//@ func (*catalog_).ShuffleValues
+//@   props C03 C09
+//@   implements Sortable.ShuffleValues
+//@   uses kmem_perm, ukeys_perm, kobj_perm, nonnil_perm
+//@   hint call1: permof(view(this), old(view(this)))
+//@   ensures[C03] permof(view(this), old(view(this))) && samemapping(view(this), old(view(this))) && unchanged(aval)
+//@ lemma[C03] rev_sameelems: forall s Seq, t Seq, x U :: { cnt(s, 0, len(s), x), cnt(t, 0, len(t), x) } len(s) == len(t) && (forall i :: 0 <= i && i < len(t) ==> s[i] == t[len(t) - 1 - i]) ==> cnt(s, 0, len(s), x) == cnt(t, 0, len(t), x)
+//@ func (*catalog_).ReverseValues
+//@   props C03 C09
+//@   implements Sortable.ReverseValues
+//@   uses kmem_perm, ukeys_perm, kobj_perm, nonnil_perm, rev_sameelems
+//@   ensures[C03] permof(view(this), old(view(this))) && samemapping(view(this), old(view(this))) && unchanged(aval)
+//@   hint call1: permof(view(this), old(view(this)))
